@@ -198,7 +198,11 @@ func overlayFiles(c *Check, workDir string, withTest map[string][]string) map[st
 		}
 	}
 	for _, e := range c.ExtraFiles {
-		ov[filepath.Join(repoRoot, e.Virtual)] = filepath.Join(verifRoot, e.Real)
+		real := filepath.Join(verifRoot, e.Real)
+		if filepath.IsAbs(e.Real) {
+			real = e.Real // a file of the repository itself, presented under another name
+		}
+		ov[filepath.Join(repoRoot, e.Virtual)] = real
 	}
 	return ov
 }
@@ -419,7 +423,32 @@ func runNative(c *Check, pkgPath string, names []string, vecs []vector, workDir 
 	cmd := exec.Command("go", "test", "-vet=off", "-count=1", "-timeout", "20m", "-overlay", ovPath, "-run", "^TestVerifReplay$", "-v", pkgPath)
 	cmd.Dir = repoRoot
 	cmd.Env = append(goEnv(), "VERIF_REPLAY="+vecPath, "VERIF_TIER="+tier)
-	out, err := cmd.CombinedOutput()
+	var out []byte
+	var err error
+	pkgDir := ""
+	for _, p := range c.Packages {
+		if p.Path == pkgPath {
+			pkgDir = filepath.Join(repoRoot, p.Dir)
+		}
+	}
+	if _, serr := os.Stat(pkgDir); pkgDir != "" && serr != nil {
+		// the package exists only in the overlay (no directory to run the test
+		// in): build the test binary and run it from the repository root
+		bin := filepath.Join(workDir, "replay_"+filepath.Base(pkgPath)+".test")
+		build := exec.Command("go", "test", "-vet=off", "-c", "-o", bin, "-overlay", ovPath, pkgPath)
+		build.Dir = repoRoot
+		build.Env = goEnv()
+		if bout, berr := build.CombinedOutput(); berr != nil {
+			return nil, string(bout), fmt.Errorf("building the replay test binary: %v", berr)
+		}
+		run := exec.Command(bin, "-test.run", "^TestVerifReplay$", "-test.v", "-test.timeout", "20m")
+		run.Dir = repoRoot
+		run.Env = append(goEnv(), "VERIF_REPLAY="+vecPath, "VERIF_TIER="+tier)
+		out, err = run.CombinedOutput()
+		os.Remove(bin)
+	} else {
+		out, err = cmd.CombinedOutput()
+	}
 	var res []nativeResult
 	for _, line := range strings.Split(string(out), "\n") {
 		if k := strings.Index(line, "VERIF-RESULT "); k >= 0 {
